@@ -91,6 +91,7 @@ class Profile(object):
     return {}
 
   def new_generator(self, rng, cfg):
+    gen.NO_SORT_BY[0] = bool(cfg.get("no_sort_by"))
     return gen.G(rng, cfg)
 
   def first_events(self, sim, g, cfg):
